@@ -1,3 +1,4 @@
+\* scenario generator: prints one VERIF-CASE line per (value, path); run with -workers 1
 SPECIFICATION GenSpec
 CONSTANTS
   Mutants = {}
